@@ -89,6 +89,16 @@ func blockCfg() Cfg {
 	return c
 }
 
+// bothPools adds, for every configuration, the variant in which sync.Pool hands back the oldest object first.
+func bothPools(cs ...Cfg) []Cfg {
+	out := append([]Cfg{}, cs...)
+	for _, c := range cs {
+		c.Pool = 1
+		out = append(out, c)
+	}
+	return out
+}
+
 // ---- C01 --------------------------------------------------------------------------------------
 
 func runC01(cfg Cfg, keys []string, ops []Op, res *TaskResult) *Violation {
@@ -137,7 +147,7 @@ func init() {
 		Assumptions: []string{
 			"key universe {a,b}; value classes S(3B) E(empty) L(30% of DataFileSize) X(>DataFileSize) B(delta: record ends delta bytes before a 32KiB boundary) M(3 blocks)",
 			"faults are not injected; a mutation returning an unexpected error is modelled as no effect and counted (unexpected_errors)",
-			"sync.Pool is replaced by a deterministic LIFO free list",
+			"sync.Pool is replaced by a deterministic free list, explored in both orders (newest first, oldest first)",
 		},
 		Tasks: func(tier string) []Task {
 			if tier == "quick" {
@@ -145,8 +155,8 @@ func init() {
 					{Name: "long-keys-d5", Cfgs: longKeyCfgs(), Keys: c18LongKeys, Alpha: longKeyMergeAlphabet, Depth: 5, Dev: 3, Run: runC01},
 					{Name: "same-offset-d6", Cfgs: []Cfg{blockCfg()}, Keys: keysAB, Alpha: sameOffsetAlphabet, Depth: 6, Dev: 6, Run: runC01},
 					{Name: "tiny-d3b2", Cfgs: tinyCfgs(), Keys: keysAB, Alpha: tinyAlphabet, Depth: 3, Dev: 2, Run: runC01},
-					{Name: "tiny-d4b2", Cfgs: []Cfg{defaultCfg}, Keys: keysAB, Alpha: tinyAlphabet, Depth: 4, Dev: 2, Run: runC01},
-					{Name: "block-d3b2", Cfgs: []Cfg{blockCfg()}, Keys: keysAB, Alpha: blockAlphabet, Depth: 3, Dev: 2, Run: runC01},
+					{Name: "tiny-d4b2", Cfgs: bothPools(defaultCfg), Keys: keysAB, Alpha: tinyAlphabet, Depth: 4, Dev: 2, Run: runC01},
+					{Name: "block-d3b2", Cfgs: bothPools(blockCfg()), Keys: keysAB, Alpha: blockAlphabet, Depth: 3, Dev: 2, Run: runC01},
 				})
 			}
 			bt := blockCfg()
@@ -158,8 +168,8 @@ func init() {
 				{Name: "long-keys-d6", Cfgs: longKeyCfgs(), Keys: c18LongKeys, Alpha: longKeyMergeAlphabet, Depth: 6, Dev: 3, Run: runC01},
 				{Name: "same-offset-d7", Cfgs: []Cfg{blockCfg()}, Keys: keysAB, Alpha: sameOffsetAlphabet, Depth: 7, Dev: 7, Run: runC01},
 				{Name: "tiny-d4b2", Cfgs: tinyCfgs(), Keys: keysAB, Alpha: tinyAlphabet, Depth: 4, Dev: 2, Run: runC01},
-				{Name: "tiny-d5b3", Cfgs: []Cfg{defaultCfg}, Keys: keysAB, Alpha: tinyAlphabet, Depth: 5, Dev: 3, Split: 2, Run: runC01},
-				{Name: "block-d4b3", Cfgs: []Cfg{bt, bt2, bt3}, Keys: keysAB, Alpha: blockAlphabet, Depth: 4, Dev: 3, Run: runC01},
+				{Name: "tiny-d5b3", Cfgs: bothPools(defaultCfg), Keys: keysAB, Alpha: tinyAlphabet, Depth: 5, Dev: 3, Split: 2, Run: runC01},
+				{Name: "block-d4b3", Cfgs: bothPools(bt, bt2, bt3), Keys: keysAB, Alpha: blockAlphabet, Depth: 4, Dev: 3, Run: runC01},
 			})
 		},
 		Bounds: func(tier string) map[string]any {
